@@ -125,11 +125,16 @@ End RFarm.
 Module RStk.
 Import MX.Model.Staking MX.Run.StakingRun QStk.
 
-(** calculateRewardsForGivenPosition(x, attributes with reward_per_share [arps]) at block [blk] *)
-Inductive sq := SQ (blk x arps : Z) (ok : bool) (v : Z).
+(** calculateRewardsForGivenPosition(x, attributes with reward_per_share [arps], user) at block [blk];
+    [b] = the boosted part the claim that followed paid to the queried user ([known] = the queried user
+    is the claimer and that claim succeeded; otherwise only success/failure is compared) *)
+Inductive sq := SQ (blk x arps b : Z) (known ok : bool) (v : Z).
 
 Definition check_q (i : Z) (s : stk) (q : sq) : list Z :=
-  let '(SQ blk x arps ok v) := q in cmp_view i 0 (calc_rewards s blk x arps) ok v.
+  let '(SQ blk x arps b known ok v) := q in
+  let m := calc_rewards s blk x arps 0 None (fun _ => b) in
+  if known then cmp_view i 0 m ok v
+  else match m with Ok _ => if ok then [] else [i; 40; 1; 0] | Err _ => if ok then [i; 40; 0; 1] else [] end.
 
 Fixpoint check_qs (i : Z) (s : stk) (qs : list sq) : list Z :=
   match qs with
@@ -141,10 +146,10 @@ Fixpoint check_qs (i : Z) (s : stk) (qs : list sq) : list Z :=
     position plus the observed boosted part must be the observed payment *)
 Definition check_paid (i : Z) (s : stk) (op : sop) (ok : bool) (qs : list sq) : list Z :=
   match op, qs with
-  | SClaim blk _ _ x r b, SQ qblk qx arps _ _ :: _ =>
+  | SClaim blk _ _ x r b, SQ qblk qx arps _ _ _ _ :: _ =>
       if ok && (qblk =? blk) && (qx =? x) then
-        match calc_rewards s blk x arps with
-        | Ok base => if base + b =? r then [] else [i; 60; base + b; r]
+        match calc_rewards s blk x arps 0 None (fun _ => b) with
+        | Ok v => if v =? r then [] else [i; 60; v; r]
         | Err _ => [i; 60; -1; r]
         end
       else []
